@@ -927,6 +927,16 @@ class EmptyReader(IndexReader):
     def indexed_field_names(self):
         return []
 
+    def column_reader(self, fieldname, column=None, reverse=False,
+                      translate=True):
+        # An empty reader can be one of the sub-readers of a MultiReader (a
+        # BufferedWriter's reader over an index without segments)
+        column = column or self.schema[fieldname].column_type
+        if not column:
+            raise Exception("No column for field %r in %r"
+                            % (fieldname, self))
+        return columns.EmptyColumnReader(column.default_value(reverse), 0)
+
     def all_terms(self):
         return iter([])
 
